@@ -248,6 +248,9 @@ def run(ctx):
     allc = c1 + c2
     triples = [(c, m, k) for c in allc for m in MODES for k in COLLS]
     if ctx.thorough:
+        # collation only matters for multi-file objects (a one-path file-set is always collated "any"):
+        # every value x every mode with collation any, and all three collations for values holding the pair
+        triples = [t for t in triples if t[2] == "any" or any(l["o"] == "P1" for l in t[0]["leaves"])]
         ctx.exhaustive = True
     else:
         hot = [t for t in triples if t[0]["clash"] or t[0]["same"]]
